@@ -65,6 +65,12 @@ Theorem C10_F07_literal_unknown_attribute : forall p,
   has_fault_literal_unknown_attribute p = true -> validate p <> Ok [].
 Proof. exact literal_unknown_attribute_rejected. Qed.
 Print Assumptions C10_F07_literal_unknown_attribute.
+(* F08: an array that directly contains an array, in a struct literal of any statement (the
+   visitor walks every statement, parallel-loop bodies included) — finding D28, repaired *)
+Theorem C10_F08_nested_array_literal : forall p,
+  has_fault_nested_array_literal p = true -> validate p <> Ok [].
+Proof. exact nested_array_literal_rejected. Qed.
+Print Assumptions C10_F08_nested_array_literal.
 Theorem C10_F10_duplicate_struct : forall p, has_fault_duplicate_struct p = true -> validate p <> Ok [].
 Proof. exact duplicate_struct_rejected. Qed.
 Print Assumptions C10_F10_duplicate_struct.
@@ -132,7 +138,8 @@ Theorem C10_fault_predicates_inhabited :
   /\ has_fault_unknown_task w_D9_unknown_task_in_parallel_loop = true
   /\ has_fault_wrong_arity w_parloop_wrong_arity = true
   /\ has_fault_bad_limit w_D10_undeclared_limit = true /\ has_fault_bad_limit w_limit_unknown_attribute = true
-  /\ has_fault_bad_limit w_limit_string = true.
+  /\ has_fault_bad_limit w_limit_string = true
+  /\ has_fault_nested_array_literal w_D28_nested_array_element = true.
 Proof. exact fault_predicates_inhabited. Qed.
 Print Assumptions C10_fault_predicates_inhabited.
 
@@ -149,7 +156,8 @@ Theorem C10_formerly_accepted_now_reported :
   /\ validate w_limit_string = Ok [(KLimitNotNumber, CStmt 0 [1])]
   /\ validate w_D12a_missing_attribute_in_nested_literal = Ok [(KMissingAttr, CLitJson 0 [0] 0)]
   /\ validate w_D12a_number_in_struct_array
-     = Ok [(KArrayElem, CLitJson 0 [0] 0); (KWrongTypeArray, CLit 0 [0] 0)].
+     = Ok [(KArrayElem, CLitJson 0 [0] 0); (KWrongTypeArray, CLit 0 [0] 0)]
+  /\ validate w_D28_nested_array_element = Ok [(KNestedArray, CLitJson 0 [0] 0)].
 Proof. exact formerly_accepted_now_reported. Qed.
 Print Assumptions C10_formerly_accepted_now_reported.
 
